@@ -3,6 +3,7 @@ From HTA.lib Require Import Base Dag.
 From HTA.gen Require Import CpRules_gen.
 From HTA.model Require Import C08_Model C08_Host C08_Dev C08_Clip.
 From HTA.proof Require Import C08_Proofs C08_HostProofs C08_DevProofs C08_RulesTie C08_ClipProofs.
+From HTA.proof Require Import Scale C08_HostScale.
 Open Scope Z_scope.
 
 Theorem C08_edges_forward_nonneg : forall zw clipped N E e, edge_ok zw clipped N E e = true ->
@@ -102,3 +103,11 @@ Definition e08 : list cpedge :=
   [ mkE 0 1 2 0; mkE 1 2 0 1; mkE 2 3 1 0; mkE 3 7 0 1; mkE 7 9 0 0; mkE 4 5 4 0; mkE 0 4 5 2; mkE 6 8 3 0; mkE 5 6 0 3; mkE 8 9 0 4 ].
 Example C08_nonvacuous : check_C08 false cl08 n08 e08 [0; 1; 2; 3; 4; 5; 6; 7; 8; 9] = [true; true; true; true].
 Proof. vm_compute. reflexivity. Qed.
+
+(* resolution independence of the host-side builder: event times multiplied by k give the same edges between the same nodes, with
+   node times and weights multiplied by k (types and attributions unchanged); with C08_host_edges_forward_nonneg this carries the
+   forward / non-negative / attribution results over to fractional microseconds *)
+Theorem C08_host_resolution_independent : forall k tab acts,
+  host_edges_of (map (shev k) tab) acts = map (shedge k) (host_edges_of tab acts).
+Proof. exact C08_host_scale. Qed.
+Print Assumptions C08_host_resolution_independent.
